@@ -248,6 +248,21 @@ class Gen:
                 a = ('num', 2)
         if a[0] == 'num' and b[0] == 'num':
             a = ('var', r.choice(self.chars))
+        # known finding: an element indexed by X/Y compared with the X/Y register itself
+        if 'reg-compare' not in self.probe:
+            def is_regidx(e): return e[0] == 'idx' and e[2][0] == 'var'
+            def is_reg(e): return e[0] == 'var' and e[1] in ('X', 'Y')
+            if (is_regidx(a) and is_reg(b)) or (is_regidx(b) and is_reg(a)):
+                b = ('var', r.choice(self.chars))
+                if is_reg(a):
+                    a = ('var', r.choice(self.chars))
+        # the same known finding through a folded constant: an ordered comparison against an
+        # operand that is constant and equal to 0 modulo 256
+        if 'zero-compare' not in self.probe and op in ('<', '>=', '>', '<='):
+            for side in (a, b):
+                cv = const_value(side)
+                if cv is not None and cv % 256 == 0:
+                    return ('cmp', op, ('var', r.choice(self.chars)), ('num', 1 + r.randrange(254)))
         return ('cmp', op, a, b)
 
     def cond(self, depth=0):
@@ -383,6 +398,27 @@ class Gen:
         return self.p
 
 
+def const_value(e):
+    """value of a constant expression (None if it mentions a variable)"""
+    k = e[0]
+    if k == 'num':
+        return e[1]
+    if k == 'bin':
+        a, b = const_value(e[2]), const_value(e[3])
+        if a is None or b is None:
+            return None
+        try:
+            return {'+': a + b, '-': a - b, '&': a & b, '|': a | b, '^': a ^ b, '<<': a << b if 0 <= b < 16 else None,
+                    '>>': a >> b if 0 <= b < 16 else None}[e[1]]
+        except Exception:
+            return None
+    if k == 'neg':
+        a = const_value(e[1]); return None if a is None else -a
+    if k == 'bnot':
+        a = const_value(e[1]); return None if a is None else ~a
+    return None
+
+
 def st_has(s, kind):
     if s[0] == kind:
         return True
@@ -401,3 +437,96 @@ if __name__ == "__main__":
     import sys
     rng = random.Random(int(sys.argv[1]) if len(sys.argv) > 1 else 1)
     print(program(rng, shorts=True).text)
+
+
+# ---------------------------------------------------------------- serialisation for the Lean C semantics
+
+OPN = {'+': 'add', '-': 'sub', '&': 'and', '|': 'or', '^': 'xor', '<<': 'shl', '>>': 'shr',
+       '==': 'eq', '!=': 'ne', '<': 'lt', '<=': 'le', '>': 'gt', '>=': 'ge', '++': 'inc', '--': 'dec'}
+
+
+class Unsupported(Exception):
+    pass
+
+
+def etoks(e):
+    k = e[0]
+    if k == 'num':
+        return ['n', str(e[1])]
+    if k == 'var':
+        return ['v', e[1]]
+    if k == 'idx':
+        return ['i', e[1]] + etoks(e[2])
+    if k == 'bin':
+        return ['b', OPN[e[1]]] + etoks(e[2]) + etoks(e[3])
+    if k == 'cmp':
+        return ['c', OPN[e[1]]] + etoks(e[2]) + etoks(e[3])
+    if k in ('neg', 'bnot', 'not'):
+        return [k] + etoks(e[1])
+    if k in ('land', 'lor'):
+        return [k] + etoks(e[1]) + etoks(e[2])
+    if k == 'tern':
+        return ['t'] + etoks(e[1]) + etoks(e[2]) + etoks(e[3])
+    if k == 'asg':
+        return ['asg'] + etoks(e[1]) + etoks(e[2])
+    if k == 'opasg':
+        return ['oas', OPN[e[1]]] + etoks(e[2]) + etoks(e[3])
+    if k in ('pre', 'post'):
+        return [k, OPN[e[1]]] + etoks(e[2])
+    if k == 'call':
+        if e[2]:
+            raise Unsupported('call with arguments')
+        return ['call', e[1]]
+    raise Unsupported(k)
+
+
+def stoks(s):
+    k = s[0]
+    if k == 'expr':
+        return ['E'] + etoks(s[1])
+    if k == 'block':
+        out = ['blk', str(len(s[1]))]
+        for x in s[1]:
+            out += stoks(x)
+        return out
+    if k == 'if':
+        return ['if'] + etoks(s[1]) + stoks(s[2]) + (stoks(s[3]) if s[3] is not None else ['-'])
+    if k == 'while':
+        return ['wh'] + etoks(s[1]) + stoks(s[2])
+    if k == 'dowhile':
+        return ['dw'] + stoks(s[1]) + etoks(s[2])
+    if k == 'for':
+        o = lambda e: etoks(e) if e is not None else ['-']
+        return ['for'] + o(s[1]) + o(s[2]) + o(s[3]) + stoks(s[4])
+    if k == 'break':
+        return ['brk']
+    if k == 'continue':
+        return ['cont']
+    if k == 'return':
+        if s[1] is not None:
+            raise Unsupported('return value')
+        return ['ret']
+    if k == 'switch':
+        out = ['sw'] + etoks(s[1]) + [str(len(s[2]))]
+        for vals, body in s[2]:
+            out += [str(len(vals))] + [str(v) for v in vals] + [str(len(body))]
+            for x in body:
+                out += stoks(x)
+        if s[3] is None:
+            out.append('-')
+        else:
+            out += ['d', str(len(s[3]))]
+            for x in s[3]:
+                out += stoks(x)
+        return out
+    raise Unsupported(k)
+
+
+def program_tokens(p):
+    """the functions of a Program as token segments (main last)"""
+    segs = []
+    for (ret, name, params, body, inline) in p.funcs:
+        if params or ret != 'void':
+            raise Unsupported('parameters / return values')
+        segs.append([name] + stoks(('block', body)))
+    return segs
